@@ -479,6 +479,10 @@ C14_counters(t, gg) ==    \* (... or the snapshot that opens the next hand, when
       /\ \A pr \in FlagPairs : pr[1] \in Range(s.flags) => pr[2] \in Range(s.flags)
 C14_one3bet(t) ==
   IsSettledSnap(t) => Cardinality({i \in 1..Len(t.st.players) : "3b" \in Range(t.st.players[i].stats.flags)}) <= 1
+\* "all statistics are cleared before the next hand": at the between-hands reset and again at the snapshot that opens a hand
+C14_cleared(t) ==
+  ((t.ev = "hook" /\ t.a.kind = "continue.reset") \/ (Trusty(t) /\ IsOpenSnap(t))) =>
+    \A i \in 1..Len(t.st.players) : ZeroStats(t.st.players[i].stats)
 C14_nonParticipantsZero(t) ==
   IsSettledSnap(t) => \A i \in 1..Len(t.st.players) : ~t.st.players[i].part =>
        (t.st.players[i].stats.at = 0 /\ t.st.players[i].stats.ct = 0 /\ t.st.players[i].stats.kt = 0)
@@ -506,6 +510,8 @@ CheckLine(k, gg) ==
       midOp == gg.inGate \in {"members.add.mid", "members.remove.mid"}   \* another goroutine is parked in the middle of a membership operation
   IN
   t.ev = "scenario" \/
+  \* a public call that never returned (driver watchdog) in a scenario in which a backend call had been made to fail
+  (t.ev = "hang" /\ Clause("C13_callsReturn", gg.faults = 0, "", k)) \/
   (t.ev \in MgrLines /\ Clause("C17_notFound", C17_notFound(t), "", k) /\ Clause("C17_closeRemoves", C17_closeRemoves(t), "", k)
                     /\ Clause("C17_bystandersRemain", C17_bystandersRemain(t), "", k) /\ Clause("C17_bystandersUntouched", C17_bystandersUntouched(t), "", k)) \/
   (t.ev \in {"actorview", "actorsdone"} /\ Clause("C20_observerHidden", C20_observerHidden(t), "", k)
@@ -573,6 +579,7 @@ CheckLine(k, gg) ==
      /\ Clause("C12_breakPauses", C12_breakPauses(t, gg), "", k)
      /\ Clause("C14_counters", C14_counters(t, gg), kfmid, k)
      /\ Clause("C14_one3bet", C14_one3bet(t), "", k)
+     /\ Clause("C14_cleared", C14_cleared(t), kfmid, k)
      /\ Clause("C14_nonParticipantsZero", C14_nonParticipantsZero(t), kfmid, k)
      /\ Clause("C15_deadlineSet", C15_deadlineSet(t, gg), "", k)
      /\ Clause("C15_deadlineCleared", C15_deadlineCleared(t, gg), "", k)
